@@ -84,6 +84,11 @@ def Exts.repeatedC (e : Exts) : Option RepeatedC :=
   | some { typ := .repeated r, .. } => some r
   | _ => none
 
+def Exts.mapC (e : Exts) : Option MapC :=
+  match e.validate with
+  | some { typ := .map m, .. } => some m
+  | _ => none
+
 /-- `ext.validate != nil && ext.validate.Type != nil` -/
 def Exts.hasType (e : Exts) : Bool :=
   match e.validate with
@@ -99,6 +104,9 @@ def keyFormatOfString : String → Option KeyFormat → Option KeyFormat
 
 /-- `buildFromStringProto` -/
 def buildFromStringProto (ext : Exts) (psm : Option PsmKey) : Outcome Schema :=
+  -- b1eebc1: a field marked as a J5 string, or as a key with its own (custom) pattern, keeps its
+  -- pattern; formats / keys are inferred from well-known patterns only for other fields
+  let own : Bool := match ext.j5 with | some .string => true | some (.key (some _)) => true | _ => false
   -- validate part
   let step1 : Outcome (Option String × Option StringRules × Bool) :=
     if ext.hasType then
@@ -107,7 +115,7 @@ def buildFromStringProto (ext : Exts) (psm : Option PsmKey) : Outcome Schema :=
         let (fmt, pat) : Option String × Option String :=
           match c.pattern with
           | none => (none, none)
-          | some p => (match wellKnownStringPattern p with | some f => (some f, none) | none => (none, some p))
+          | some p => (match (if own then none else wellKnownStringPattern p) with | some f => (some f, none) | none => (none, some p))
         let fmt := if c.uuid then some "uuid" else fmt
         .ok (fmt, some { minLength := c.minLen, maxLength := c.maxLen, pattern := pat }, c.uuid)
       | _ => .err "constraint for string is of another type"
@@ -240,6 +248,10 @@ def buildSchema (kind : ProtoKind) (ext : Exts) (psm : Option PsmKey) : Outcome 
 def topExts (a : Annot) : Exts :=
   { validate := some (a.validate.getD {}), list := a.list, j5 := a.j5 }
 
+def Schema.isAny : Schema → Bool
+  | .any _ _ _ => true
+  | _ => false
+
 /-- one field of `messageProperties` -/
 def readField (a : Annot) : Outcome Property :=
   let ext := topExts a
@@ -255,8 +267,27 @@ def readField (a : Annot) : Outcome Property :=
     | .err t => .err t
     | .panic w => .panic w
     | .ok s =>
+      -- a9e5f7d: j5reflect and the JSON codec have no array of Any
+      if s.isAny then .err "arrays of Any are not supported"
+      else
       .ok { name := a.jsonName, number := a.number, description := a.description,
             required := required, explicitlyOptional := false, schema := .array s rules sf }
+  else if a.isMap then
+    let sf : Option String := match a.j5 with | some (.map sf) => sf | _ => none
+    let (rules, childValidate) : Option MapRules × Option FieldC :=
+      match ext.mapC with
+      | some m => (some { minPairs := m.minPairs, maxPairs := m.maxPairs },
+                   m.values.map fun c => { required := none, typ := .item c })
+      | none => (none, none)
+    -- `buildSchema(childContext, field.MapValue(), childExt)`: no list rules, no j5 annotation
+    match buildSchema a.kind { validate := childValidate, list := none, j5 := none } a.psmKey with
+    | .err t => .err t
+    | .panic w => .panic w
+    | .ok s =>
+      if s.isAny then .err "maps of Any are not supported"
+      else
+      .ok { name := a.jsonName, number := a.number, description := a.description,
+            required := required, explicitlyOptional := false, schema := .map s rules sf }
   else
     match buildSchema a.kind ext a.psmKey with
     | .err t => .err t
